@@ -57,6 +57,10 @@ static void reader()
         rd_lock();
         obj * p = src.load( atomics::memory_order_acquire );
         if ( nested ) { rd_lock(); rd_unlock(); }            // an inner unlock must not end the critical section
+#if NESTED2
+        marker.fetch_add( 1, atomics::memory_order_relaxed );
+        if ( nested ) { rd_lock(); rd_unlock(); }            // a second nested pair later in the same outer section
+#endif
         if ( p->disposed != 0 ) saw_disposed = true;
         marker.fetch_add( 1, atomics::memory_order_relaxed ); // other threads run while the reader is inside
         if ( p->disposed != 0 ) saw_disposed = true;
